@@ -611,33 +611,26 @@ func (p *Prog) headerObligations(spec layoutSpec) []Ob {
 	}{{"log", pkgMessage, spec.LogFileHeader}, {"index", pkgIndex, spec.IndexFileHeader}} {
 		ob := Ob{Rule: "R9", Inst: "file-header:" + h.kind, Props: []string{"C13", "C17"}, Pos: "-", Nontrivial: true}
 		var bad []string
-		magic := p.byteArrayVar(h.pkg, "magic")
-		if !bytesEq(magic, h.sp.Magic) {
-			bad = append(bad, fmt.Sprintf("magic bytes %v, documented %v", magic, h.sp.Magic))
-		}
 		if hs, ok := p.constValue(h.pkg, "HeaderSize"); !ok || hs != h.sp.Size {
 			bad = append(bad, fmt.Sprintf("HeaderSize = %d, documented %d", hs, h.sp.Size))
 		}
-		v1, ok1 := p.structFieldConst(h.pkg, "V1", "marker")
-		v2, ok2 := p.structFieldConst(h.pkg, "V2", "marker")
+		v1, ok1 := p.structFieldConst(h.pkg, "V1", "")
+		v2, ok2 := p.structFieldConst(h.pkg, "V2", "")
 		wantV1, wantV2 := spec.Record["V1"].Marker, spec.Record["V2"].Marker
 		if !ok1 || !ok2 || v1 != wantV1 || v2 != wantV2 {
 			bad = append(bad, fmt.Sprintf("version markers V1=%d V2=%d, documented V1=%d V2=%d", v1, v2, wantV1, wantV2))
 		}
-		// newHeader under V2
+		// the header builder, found by shape: a method of this package's Version returning ([]byte, error)
 		var nh *ssa.Function
 		for _, fn := range p.Funcs {
-			if srcFunc(fn) && fn.Name() == "newHeader" && funcPkgPath(fn) == h.pkg {
-				nh = fn
+			if !srcFunc(fn) || funcPkgPath(fn) != h.pkg || fn.Signature.Recv() == nil {
+				continue
 			}
-		}
-		if nh == nil {
-			// find by shape: a method of Version returning ([]byte, error)
-			for _, fn := range p.Funcs {
-				if srcFunc(fn) && funcPkgPath(fn) == h.pkg && fn.Signature.Recv() != nil && typeName(fn.Signature.Recv().Type()) == h.pkg[strings.LastIndex(h.pkg, "/")+1:]+".Version" && fn.Signature.Results().Len() == 2 && isByteSlice(fn.Signature.Results().At(0).Type()) {
-					nh = fn
-				}
+			rn := namedOf(fn.Signature.Recv().Type())
+			if rn == nil || rn.Obj().Name() != "Version" || fn.Signature.Results().Len() != 2 || !isByteSlice(fn.Signature.Results().At(0).Type()) {
+				continue
 			}
+			nh = fn
 		}
 		if nh == nil {
 			ob.Status, ob.Msg = Undecided, "the function building the "+h.kind+" file header was not found"
@@ -654,6 +647,7 @@ func (p *Prog) headerObligations(spec layoutSpec) []Ob {
 				return p.paramsDecide(times, keys)(cond)
 			}
 			reach := reachUnder(nh, decide)
+			tag0 := fmt.Sprintf("[times=%v keys=%v] ", times, keys)
 			magicAt, verAt := "", ""
 			paramsOr := int64(0)
 			resOK := false
@@ -663,11 +657,14 @@ func (p *Prog) headerObligations(spec layoutSpec) []Ob {
 					continue
 				}
 				switch {
-				case r.Op == "copy" && r.What == "global:magic":
+				case r.Op == "copy" && strings.HasPrefix(r.What, "global:"):
 					magicAt = r.Off
+					if mb := p.byteArrayVar(h.pkg, strings.TrimPrefix(r.What, "global:")); !bytesEq(mb, h.sp.Magic) {
+						bad = append(bad, tag0+fmt.Sprintf("magic bytes %v, documented %v", mb, h.sp.Magic))
+					}
 				case r.Op == "mklen":
 					size = r.What
-				case r.Op == "setbyte" && r.What == "field:marker":
+				case r.Op == "setbyte" && strings.HasPrefix(r.What, "field:"):
 					verAt = r.Off
 				case r.Op == "setbyte" && strings.HasPrefix(r.What, "or:") && r.Off == fmt.Sprint(h.sp.ParamsAt):
 					var k int64
@@ -715,11 +712,6 @@ func (p *Prog) headerObligations(spec layoutSpec) []Ob {
 				for _, k := range []bool{false, true} {
 					check(t, k)
 				}
-			}
-			tb, _ := p.constValue(h.pkg, "timesBit")
-			kb, _ := p.constValue(h.pkg, "keysBit")
-			if tb != h.sp.TimesBit || kb != h.sp.KeysBit {
-				bad = append(bad, fmt.Sprintf("params bits times=%d keys=%d, documented %d / %d", tb, kb, h.sp.TimesBit, h.sp.KeysBit))
 			}
 		}
 		if len(bad) > 0 {
